@@ -144,9 +144,13 @@ Qed.
 Theorem len_between_call_and_return s : Reach s -> bad_len (F s) = false.
 Proof. intros R. apply (IM _ _ (inv_reach s R)). Qed.
 
+(* len() called by the producer thread returns a number between the abstract lengths at return and at call *)
+Theorem producer_len_between_return_and_call s : Reach s -> bad_lenp (F s) = false.
+Proof. intros R. apply (IM _ _ (inv_reach s R)). Qed.
+
 Theorem monitors_never_trip s : Reach s -> monitors_ok s = true.
 Proof.
-  intros R. destruct (IM _ _ (inv_reach s R)) as (M1 & M2 & M3 & M4 & M5 & M6 & M7).
-  unfold monitors_ok. now rewrite M1, M2, M3, M4, M5, M6, M7.
+  intros R. destruct (IM _ _ (inv_reach s R)) as (M1 & M2 & M3 & M4 & M5 & M6 & M7 & M8).
+  unfold monitors_ok. now rewrite M1, M2, M3, M4, M5, M6, M7, M8.
 Qed.
 End S.
